@@ -524,7 +524,7 @@ def line_cases(ctx):
         lines.append(gen_line(rng, "none", 0))
         lines.append(gen_line(rng, "deps-nested", rng.choice(codes)))
     # every position of a three-target line for a few kinds
-    for kind in ("fatal", "error", "unknown", "deps-diff"):
+    for kind in ("fatal", "error", "unknown", "deps-diff", "deps-sametext-diff"):
         for p in range(3):
             for _ in range(20):
                 l = gen_line(rng, kind, rng.choice(codes), npos=p)
@@ -581,6 +581,36 @@ def table_cases(ctx):
     add("words after -version", "main", "mage", ["-version", "t1"], 2, scen(fa=fargs(version=True, nargs=1)), tokens=["Error:"])
     add("words after -init", "main", "mage", ["-init", "t1"], 2, scen(fa=fargs(init=True, nargs=1)), tokens=["Error:"])
     add("words after -compile", "main", "mage", ["-compile", "../never-built", "t1"], 2, scen(fa=fargs(compile=True, nargs=1)), tokens=["Error:"])
+    # --- a malformed flag combined with valid options, in both orders: a flag error anywhere -> 2, nothing runs, message
+    #     on stderr (the targets after it would run - one of them would fail with 7 - if the error were lost)
+    bad_shapes = [["-nosuchflag"], ["-t", "notaduration"], ["-v=maybe"], ["-debug=perhaps"], ["--undefined=1"]]
+    valid_opts = [["-w", "work"], ["-d", "."], ["-v"], ["-debug"], ["-t", "5s"], ["-gocmd", "go"], ["-f"], ["-keep"]]
+    tail = ["t1", "t2"]
+    tail_behs = {"T2": ["fatal", 7]}
+    for bs in bad_shapes:
+        for vo in valid_opts:
+            for order in ("before", "after"):
+                argv = (vo + bs if order == "before" else bs + vo) + tail
+                add("bad flag %s with %s %s it" % (bs, vo, order), "main", "mage", argv, 2,
+                    bad(force=(order == "before" and vo == ["-f"])), tokens=["Error:"], behs=tail_behs)
+    for vo in valid_opts:
+        add("missing flag value after %s" % vo, "main", "mage", vo + ["-t"], 2, bad(force=(vo == ["-f"])), tokens=["Error:"])
+        add("-h, %s, bad flag" % vo, "main", "mage", ["-h"] + vo + ["-nosuchflag", "t1"], 2, bad(help=True, force=(vo == ["-f"])), tokens=["Error:"])
+    add("bad flag between two valid options", "main", "mage", ["-w", "work", "-nosuchflag", "-v", "t1", "t2"], 2, bad(), tokens=["Error:"], behs=tail_behs)
+    add("two valid options then a bad value", "main", "mage", ["-v", "-w", "work", "-t", "notaduration", "t1", "t2"], 2, bad(), tokens=["Error:"], behs=tail_behs)
+    add("valid options with a command, then a bad flag", "main", "mage", ["-w", "work", "-l", "-nosuchflag"], 2, bad(), tokens=["Error:"])
+    # --- the same valid options on a well-formed line: the targets run and decide
+    for vo in valid_opts[:-1]:
+        add("valid option %s, targets" % vo, "main", "mage", vo + tail, 7, scen(fa=fargs(nargs=2, force=(vo == ["-f"])), pr=prog(mentions=[T1, ["run", ["fatal", 7]]])),
+            tokens=["FAIL-T2"], behs=tail_behs, want_ran=2)
+    # --- the compiled binary: a malformed flag with its valid options in both orders
+    for bs in [["-nosuchflag"], ["-t", "zz"], ["-v=maybe"]]:
+        for vo in [["-v"], ["-t", "5s"], ["-l"], ["-h"]]:
+            for order in ("before", "after"):
+                argv = (vo + bs if order == "before" else bs + vo) + tail
+                add("binary: bad flag %s with %s %s it" % (bs, vo, order), "main", "compiled", argv, 2,
+                    scen(pr=prog(flags="bad", list=(order == "before" and vo == ["-l"]), help=(order == "before" and vo == ["-h"]),
+                                 mentions=[T1, ["run", ["fatal", 7]]])), tokens=["Error:"], behs=tail_behs)
     # --- usage / pure commands -> 0
     add("-help", "main", "mage", ["-help"], 0, scen(fa=fargs(parse="errhelp")))
     add("--help", "main", "mage", ["--help"], 0, scen(fa=fargs(parse="errhelp")))
@@ -666,6 +696,7 @@ class Slot:
         self.cache_hash = os.path.join(m.ctx.tmp, "cache-h-" + name)
         os.makedirs(self.cache_mage)
         os.makedirs(self.cache_hash)
+        os.makedirs(os.path.join(self.dir, "work"), exist_ok=True)      # an existing directory for -w
         self.cases = []
 
     def binary(self):
